@@ -205,9 +205,9 @@ class EnvBase:
             elif what == "cg_nox0":                                                       # for kinds whose inv rule hands `alg` to
                 a = cola.CG(max_iters=6, tol=1e-9)                                        # members of a different size
             elif what == "gmres":
-                a = cola.GMRES(x0=self.arr[f"x0{n}"][:, None], max_iters=4, tol=1e-9)
-            elif what == "gmres_nox0":
-                a = cola.GMRES(max_iters=4, tol=1e-9)
+                a = cola.GMRES(x0=self.arr[f"x0{n}"][:, None], max_iters=3, tol=1e-9)   # max_iters < n = 4: at m >= n the Krylov
+            elif what == "gmres_nox0":                                                     # space is exhausted by construction
+                a = cola.GMRES(max_iters=3, tol=1e-9)
             elif what == "arnoldi":
                 a = cola.Arnoldi(start_vector=self.arr[f"v{n}"], max_iters=3)
             elif what == "lanczos_sv":
@@ -421,7 +421,8 @@ def _vec(env, A, last, name):
 def _rhs(env, A, last):
     """right-hand side: the previous array result when it fits (aliasing chains), else b"""
     if isinstance(last, np.ndarray) and last.shape == (A.shape[0],) and last.dtype.kind in "fc" \
-            and np.all(np.isfinite(last)) and np.any(last):      # (a zero / non-finite right-hand side: recorded C13 zeroResidual)
+            and np.all(np.isfinite(last)) and 1e-100 < np.abs(last).max() < 1e100:
+        # (a zero / non-finite right-hand side: recorded C13 zeroResidual; beyond 1e±100 — exp of a large operator — norms over/underflow)
         return last
     return env.arr[f"b{A.shape[0]}"]
 
@@ -440,7 +441,7 @@ def _dense_of(A):
         return np.asarray(A.to_dense())
 
 
-def well_posed(A, V=None, m=0):
+def well_posed(A, V=None, m=0, x0=None):
     """Decided on the represented matrix before the call: finite, numerically non-singular (sigma_min > 1e-8 sigma_max) and, for a
     Krylov routine with start block V and m iterations, every column's Krylov space K_j(A, v) keeps growing for min(m + 1, n)
     steps (no exhaustion inside the iteration budget: exhaustion is where the recorded breakdown defects C14
@@ -455,7 +456,12 @@ def well_posed(A, V=None, m=0):
         if V is not None:
             V = np.asarray(V)
             V = V[:, None] if V.ndim == 1 else V
-            k = min(m + 1, D.shape[0])
+            if x0 is not None:                       # GMRES / CG iterate on the residual of the initial guess
+                x0 = np.asarray(x0)
+                V = V - D @ (x0[:, None] if x0.ndim == 1 else x0)
+            if m + 1 > D.shape[0]:
+                return False                         # more iterations than dimensions: exhaustion by construction
+            k = m + 1
             for j in range(V.shape[1]):
                 cols, v = [], V[:, j].astype(D.dtype if D.dtype.kind == "c" else np.result_type(D.dtype, V.dtype))
                 for _ in range(k):
@@ -466,7 +472,7 @@ def well_posed(A, V=None, m=0):
                     cols.append(v)
                     v = D @ v
                 ks = np.linalg.svd(np.stack(cols, axis=1), compute_uv=False)
-                if not (ks[-1] > 1e-6 * ks[0]):
+                if not (ks[-1] > 1e-4 * ks[0]):
                     return False
         return True
     except Exception:  # noqa: BLE001
@@ -484,10 +490,10 @@ def hpd_operand(env, A, V=None, m=0):
     return cola.PSD(A.H @ A + env.partner("dense", _n(A)))
 
 
-def regular_operand(env, A, V=None, m=0):
+def regular_operand(env, A, V=None, m=0, x0=None):
     """A itself when solving with it is well posed (see `well_posed`), else the regularised Aᴴ A + M built from A (M the dense
     symmetric positive definite partner: unit vectors are not eigenvectors of it, unlike for a diagonal shift)"""
-    if well_posed(A, V, m):
+    if well_posed(A, V, m, x0):
         return A
     return A.H @ A + env.partner("dense", _n(A))
 
@@ -712,7 +718,7 @@ def _(env, A, last):
     # an x0 of size n cannot be handed to the members of a Kronecker / BlockDiag (their inv rules pass `alg` on): there the
     # caller's Algorithm object without x0
     rhs = _rhs(env, A, last)
-    R = regular_operand(env, A, rhs, 4)
+    R = regular_operand(env, A, rhs, 3, None if x0_unfit(A) else env.arr[f"x0{_n(A)}"])
     Ai = cola.inv(R, env.alg("gmres_nox0" if x0_unfit(R) else "gmres", _n(A)))
     return Ai @ rhs
 
@@ -733,7 +739,7 @@ def _(env, A, last):
 @op("gmres")
 def _(env, A, last):
     rhs = _rhs(env, A, last)
-    x, _info = real_gmres(regular_operand(env, A, rhs, 3), rhs, x0=env.arr[f"x0{_n(A)}"], max_iters=3, tol=1e-10)
+    x, _info = real_gmres(regular_operand(env, A, rhs, 3, env.arr[f"x0{_n(A)}"]), rhs, x0=env.arr[f"x0{_n(A)}"], max_iters=3, tol=1e-10)
     return x
 
 
